@@ -53,6 +53,8 @@ def run(rep, facts):
         done = cv(agg_field(ret, 'done'))
         pos_move = position_of_call(r, RP + "::move_input")
         pos_drive = position_of_call(r, "replace_with::replace_with_and_return")
+        if pos_drive is None:
+            pos_drive = position_of_call(r, "parser::request::State::drive")        # driven directly (state taken out with mem::replace)
         if pos_move is None and pos_drive is not None:
             # compaction written out in parse itself: it is complete where input_len receives the remainder's length
             # (what it stores is decided by R5.4 / R3.10)
